@@ -6,7 +6,7 @@ The chain model is an executable interpreter with a stack of frames per request 
 over schedules**: `Chain.exploreAll` enumerates *every* interleaving (and every choice of failing deploy call) of the
 stated requests on the stated topology and is evaluated by the Lean kernel (`decide +kernel`). They are theorems about
 those scenarios — three deployments, up to three concurrent requests, the property's own bound — not about arbitrary ones. -/
-namespace SFV.C26
+namespace SFV.C26.Chains
 open SFV SFV.Chain
 
 /-- the chain `V → W → D` (`V` wraps `W` wraps `D`), all eager: names 2, 1, 0 -/
@@ -74,4 +74,4 @@ theorem deploy_at_most_once_while_live_chain :
       (initWith [.deploy 2, .deploy 1]) = true := by
   decide +kernel
 
-end SFV.C26
+end SFV.C26.Chains
